@@ -271,6 +271,29 @@ def _case(draw):
             o = {"ftConfig": {"fontTools.otlLib.optimize.gpos:COMPRESSION_LEVEL" + compact_key: 9}}
         ops.append({"fn": fn, "opts": o})
     if len(ops) >= 2 and F.chance(draw, 1, 3):
+        if kind in ("rich", "family") and not compact and F.chance(draw, 2, 3):
+            # ... with filter objects among the options (the same instances serve both calls)
+            chosen = draw(st.sampled_from([["PropagateAnchorsFilter:pre", "..."], ["PropagateAnchorsFilter:pre", "..."], ["PropagateAnchorsFilter", "..."], ["TransformationsFilter:OffsetX=7", "..."], ["DecomposeTransformedComponentsFilter", "..."]]))
+            ops[0]["opts"]["filters"] = chosen
+            if kind == "rich" and chosen[0].startswith("PropagateAnchors"):
+                # make the filter's work visible in GPOS: an anchor-less composite of a base that carries an anchor of an existing mark class
+                classes = {a["name"][1:] for g in src["glyphs"] for a in g.get("anchors", []) if a["name"].startswith("_")}
+                hosts = [g["name"] for g in src["glyphs"] if not g.get("components") and not any(a["name"].startswith("_") for a in g.get("anchors", []))
+                         and any(a["name"] in classes for a in g.get("anchors", []))]
+                if hosts and not any(g["name"] == "cpa" for g in src["glyphs"]):
+                    src["glyphs"].append({"name": "cpa", "width": 500, "unicodes": [0xE9], "components": [{"base": hosts[0], "t": [1, 0, 0, 1, 30, 0]}], "anchors": []})
+                    src["glyphOrder"] = sorted(src["glyphOrder"] + ["cpa"])
+                    for o in ops:
+                        if o["fn"] == "compileInterpolatableTTFs":  # the interpolatable filters are created per call; the static path takes the caller's objects
+                            o["fn"] = "compileTTF"
+                    src.get("lib", {}).pop("com.github.googlei18n.ufo2ft.filters", None)
+                    src.get("lib", {}).pop("public.openTypeCategories", None)  # categories from the anchors
+                    for key in [k for k in src.get("lib", {}) if k == "com.github.googlei18n.ufo2ft.colorPalettes" or k.startswith("com.nagwa.MATHPlugin.")]:
+                        src["lib"].pop(key)  # keep this class clear of the C07 open-finding classes, which are discarded below
+            if F.chance(draw, 1, 2):
+                # every call of the history gets the one filter list and nothing else (TTF then OTF, static then variable, ...)
+                for o in ops:
+                    o["opts"] = {"filters": chosen}
         # "compile twice": the very same call (and, in the history run, the very same option objects) repeated
         ops[draw(st.integers(1, len(ops) - 1))] = json.loads(json.dumps(ops[0]))
     config = draw(st.sampled_from(["other-lib", "disk-same", "disk-other-writer", "disk-other-reader", "inplace", "inplace", "inplace-twice"]))
@@ -387,6 +410,8 @@ def run_case(case, ctx):
         ctx.label("designspace-fontinfo-override")
     if any("ftConfig" in op["opts"] for op in case["ops"]):
         ctx.label("ftConfig")
+    if any(g["name"] == "cpa" for g in src["glyphs"]):
+        ctx.label("one-PropagateAnchors-instance-serves-several-calls")
     if any(g["name"] == "pmA_pmB" for g in src["glyphs"]):
         ctx.label("ligature-mark-composite-with-overshooting-control-points")
     if "openTypeVheaVertTypoAscender" in src.get("info", {}):
